@@ -82,10 +82,18 @@ CLAIMED = {
    text="TLC explores the graph-construction algorithm over every topology of 2 classes x <=2 fields x edge kinds x every root (thorough: all five edge kinds, and 3 classes) and checks termination, acyclicity of the dependency relation (so every linear extension exists), members-before-containers, and that deferred nodes are revisits denoting exactly their type; it also demonstrates that the pinned cut rule and an intermediate revision violate these. Every emitted (topology, root) is materialised as real classes (four flavours, one or two modules), static_order() is called, and TLC evaluates eight invariants on each observed node sequence using member facts computed with typing.get_args/get_type_hints; equivalent root spellings (memoised, NewType, alias, ForwardRef) must give the same sequence.",
    ref="DESIGN.md section 4 C09",
    note="Trusted: TLC; the id projection (Python == on annotations); typing.get_type_hints/get_args as the definition of direct members. Classes nested in classes are not generated (see DESIGN.md)."),
+ "C05": dict(
+   engine="Member",
+   technique="TLA+ specs Terms.tla (universe with adversarial class table) + Member_Trace.tla (memberwise relation and exception parity evaluated by TLC); real composite routines vs composites rebuilt from independently obtained member routines, over every documented source shape",
+   level="model_checking",
+   text="For every composite type of the TLC-enumerated universe (class table with same-named classes in two modules, shared field names with different types, recursive/mutually recursive classes, aliases as members) the real marshal/unmarshal of the whole value is compared by TLC with the composite rebuilt from the outcomes of separately obtained member routines, in both directions, for every documented source shape (mapping, iterable of pairs, JSON text/bytes, literal text, foreign object, tuple, generator) and in both class visiting orders; when a member rejects, the composite must raise too.",
+   ref="DESIGN.md section 4 C05",
+   note="Trusted: TLC; the harness's decomposition of inputs and rebuild with Python constructors; term projection. The routing-table (implementation-shaped) model is the graph model of C09; Factory-level routing is checked behaviourally here."),
 }
 NOT_BUILT = "check not built yet (build in progress; see DESIGN.md section 7 build order)"
 
 ENGINES = {
+ "Member": dict(path="spec/Member_Trace.tla", kind="TLA+ trace spec over Terms/Wire + harness/drivers c05 c07 c11 c15"),
  "Graph": dict(path="spec/Graph.tla", kind="TLA+ spec + TLC (exhaustive incl. liveness, topology emission, trace validation) + harness/drivers/c09.py"),
  "Wire": dict(path="spec/Wire.tla", kind="TLA+ specs Terms.tla/Wire.tla/Wire_Trace.tla + TLC (universe enumeration, trace validation) + harness/valuestream.py, harness/typeterms.py, drivers c01 c03 c06 c13"),
  "Slotted": dict(path="spec/Slotted.tla", kind="TLA+ spec + TLC (exhaustive, history emission, trace validation) + harness/drivers/c19.py"),
